@@ -1052,6 +1052,14 @@ def _generic_catalogue():
     entry("odt-with-offset", lambda: None, lambda _: o0.with_offset(Offset.from_hours(9)), lambda _: rodt(o1.with_offset(Offset.from_hours(-18))), lambda _: rodt(o2.with_offset(Offset.from_hours(18))), repr)
     entry("dateinterval-len", lambda: (DateInterval(LocalDate(2024, 2, 27), LocalDate(2024, 3, 4)), DateInterval(LocalDate(2024, 3, 5), LocalDate(2024, 3, 9))), None,
           lambda t: (len(t[0]), len(list(t[0]))), lambda t: (len(t[0]), None if (t[0] | t[1]) is None else len(t[0] | t[1])), repr)
+    # ABA shape: thread A asks x; thread B asks ANOTHER object y and then x again (a class-level "last answer" memo whose
+    # owner is re-checked after the read is fooled only by this order, and only with three preemptions)
+    entry("dateinterval-len-aba", lambda: (DateInterval(LocalDate(2024, 2, 27), LocalDate(2024, 3, 4)), DateInterval(LocalDate(2024, 3, 5), LocalDate(2024, 3, 9))),
+          lambda t: len(t[0]), lambda t: len(t[0]), lambda t: (len(t[1]), len(t[0])), repr)
+    from pyoda_time import Interval as _Interval
+    entry("interval-duration-aba", lambda: (_Interval(mk_instant(0), mk_instant(5 * NS_DAY)), _Interval(mk_instant(NS_DAY), mk_instant(3 * NS_DAY + 7))),
+          lambda t: t[0].duration, lambda t: (t[0].duration.to_nanoseconds() if hasattr(t[0].duration, "to_nanoseconds") else repr(t[0].duration), t[0].contains(mk_instant(NS_DAY))),
+          lambda t: (repr(t[1].duration), repr(t[0].duration), t[1].contains(mk_instant(NS_DAY - 1))), repr)
     entry("dateinterval-iter", lambda: DateInterval(LocalDate(2024, 2, 27), LocalDate(2024, 3, 2)), None,
           lambda di: [x.day for x in di], lambda di: [x.day for x in di], repr)
     entry("period-between-hebrew", lambda: None, lambda _: Period.between(LocalDate(5784, 1, 1, hc), LocalDate(5785, 1, 1, hc), PeriodUnits.MONTHS).months,
@@ -1094,6 +1102,8 @@ _GENERIC_FILES = {
     "odt-with-offset": ("_offset_date_time.py", "_offset_time.py"),
     "dateinterval-len": ("_date_interval.py",),
     "dateinterval-iter": ("_date_interval.py",),
+    "dateinterval-len-aba": ("_date_interval.py",),
+    "interval-duration-aba": ("_interval.py",),
     "period-between-hebrew": ("_hebrew_year_month_day_calculator.py::_add_months|_months_between|_get_days_in_month", "_year_start_cache_entry.py",
                               "_hebrew_scriptural_calculator.py::__get_or_populate_cache|__compute_cache_entry"),
     "pattern-format": ("_stepped_pattern_builder.py::format|append_format|parse|parse_partial", "_local_date_time_pattern.py", "_local_date_pattern.py"),
@@ -1185,7 +1195,8 @@ def _harness_table(tier):
         hs.append(("H8-formatinfo:%s" % k, lambda k=k: H_formatinfo(k)))
     hs.append(("H2-hebrew-warm:civil", lambda: H_hebrew_warm("civil")))
     hs.append(("H2-hebrew-warm:scriptural", lambda: H_hebrew_warm("scriptural")))
-    for g in ("weekyear-rule", "weekyear-rule-regular", "odt-with-calendar", "odt-with-offset", "dateinterval-len", "dateinterval-iter", "period-between-hebrew",
+    for g in ("weekyear-rule", "weekyear-rule-regular", "odt-with-calendar", "odt-with-offset", "dateinterval-len", "dateinterval-iter", "dateinterval-len-aba",
+              "interval-duration-aba", "period-between-hebrew",
               "pattern-format", "pattern-parse", "zone-tail-lookups", "zone-warm-hit-vs-alias", "zone-map-local", "codec-independent-writers"):
         hs.append(("H20-generic:%s" % g, lambda g=g: H_generic(g)))
         if tier != "quick":
@@ -1318,7 +1329,10 @@ def _run_harness(idx):
             if opcodes is False and tier != "quick" and P * P * P // 2 <= budget * 8:
                 plans.append((2, opcodes, max(200, (budget * 8) // P)))
             break
-        if P * P * P // 2 <= budget * 4:
+        if P ** 4 // 6 <= budget * 4:
+            # small enough for three preemptions (ABA-shaped races need them)
+            plans.append((3, opcodes, max(200, (budget * 4) // P)))
+        elif P * P * P // 2 <= budget * 4:
             plans.append((2, opcodes, max(200, (budget * 4) // P)))
         elif P * P <= budget * 2:
             plans.append((1, opcodes, max(200, (budget * 2) // P)))
